@@ -136,6 +136,10 @@ def atoms(s: S) -> frozenset:
 
 
 SHAPE_ATTRS = {"shape", "device", "dtype", "ndim", "batch_size", "is_cuda"}
+AXIS_METHODS = {"sum", "mean", "amax", "amin", "argmax", "argmin", "cumsum", "softmax", "log_softmax", "squeeze", "unsqueeze", "all", "any", "prod", "std", "var",
+                "max", "min", "flip", "cumprod", "logsumexp", "median", "sort", "argsort"}
+AXIS_FUNCS = {"torch.cat", "torch.stack", "torch.concat", "torch.sum", "torch.mean", "torch.cumsum", "torch.softmax", "torch.log_softmax", "torch.argmax", "torch.squeeze",
+              "torch.unsqueeze", "torch.max", "torch.min", "torch.unbind", "torch.nn.functional.softmax", "torch.nn.functional.log_softmax", "torch.count_nonzero", "torch.all", "torch.any"}
 SHAPE_METHS = {"size", "dim", "numel", "new", "new_zeros", "new_ones", "new_full", "new_empty", "type"}
 LIKE_FUNCS = {"torch.zeros_like", "torch.ones_like", "torch.empty_like", "torch.full_like", "len"}
 
@@ -1301,7 +1305,10 @@ class Interp:
                 target = self.repo.resolve_method(self.selfcls, f.attr) if self.selfcls is not None else None
                 if target is not None:
                     return self.call_function(target, pos, kw, n, bind_self=SELF)
-                return mk("meth", SELF, f.attr, *self.pack(pos, kw), tag=self.site(n))
+                res = mk("meth", SELF, f.attr, *self.pack(pos, kw), tag=self.site(n))
+                # a method of `self` that is not defined in the repo (framework hook, sub-module call): keep the call visible
+                self.emit("selfcall", n, (SELF, f.attr, tuple(self.pack(pos, kw)), res))
+                return res
             if isinstance(base, TD):
                 return self.td_method(base, f.attr, pos, kw, n)
             if isinstance(base, S) and base.op == "class":
@@ -1349,6 +1356,10 @@ class Interp:
             return self.make_td(pos, kw, n)
         if fn.op in ("ext", "global") and fn.args[0] in ("isinstance", "hasattr", "len", "int", "float", "range", "getattr"):
             pass
+        if fn.op in ("ext", "global") and fn.args[0] in AXIS_FUNCS and len(pos) == 1 and ("dim" in kw or "axis" in kw):
+            # torch.cat(xs, dim=k) and torch.cat(xs, k) are one call
+            kw = dict(kw)
+            pos = list(pos) + [kw.pop("dim") if "dim" in kw else kw.pop("axis")]
         return mk("call", fn, *self.pack(pos, kw), tag=self.site(n))
 
     def make_td(self, pos, kw, n):
@@ -1546,6 +1557,10 @@ class Interp:
 
     # ---------------------------------------------------------------- tensor-ish methods
     def method_call(self, base: S, name: str, pos, kw, n, base_node=None):
+        if name in AXIS_METHODS and not pos and ("dim" in kw or "axis" in kw):
+            # x.sum(dim=k) and x.sum(k) are one call: the axis becomes the first positional operand
+            kw = dict(kw)
+            pos = [kw.pop("dim") if "dim" in kw else kw.pop("axis")]
         args = self.pack(pos, kw)
         for a in list(pos) + list(kw.values()):
             if isinstance(a, TD):
